@@ -51,8 +51,10 @@ Definition phase1 (t : list odesc) (args : list string) : list string := flat_ma
 
 Definition is_bracket (s : string) : bool := orb (String.eqb s ")") (orb (String.eqb s "]") (String.eqb s "|")).
 
-(* second pass over (x_i, x_{i+1 mod n}); None = "Unknown option" error *)
-Fixpoint phase2 (t : list odesc) (first : string) (l : list string) (flag : bool) : option (list string) :=
+(* second pass over (x_i, x_{i+1 mod n}); None = "Unknown option" error.  `keep` is the code's
+   keep_separators: true when the words are those of a usage pattern (extend_usages), where a
+   bracket after a valued option is syntax; false for the command line, where it is the value *)
+Fixpoint phase2 (keep : bool) (t : list odesc) (first : string) (l : list string) (flag : bool) : option (list string) :=
   match l with
   | [] => Some []
   | x :: rest =>
@@ -62,17 +64,21 @@ Fixpoint phase2 (t : list odesc) (first : string) (l : list string) (flag : bool
         | None => None
         | Some d =>
             if is_withparam d
-            then option_map (cons (simple_repr d +s+ "=" +s+ succ)) (phase2 t first rest true)
-            else option_map (cons (simple_repr d)) (phase2 t first rest flag)
+            then option_map (cons (simple_repr d +s+ "=" +s+ succ)) (phase2 keep t first rest true)
+            else option_map (cons (simple_repr d)) (phase2 keep t first rest flag)
         end
       else if flag then
-        (if is_bracket x then option_map (cons x) (phase2 t first rest false) else phase2 t first rest false)
-      else option_map (cons x) (phase2 t first rest flag)
+        (if andb keep (is_bracket x) then option_map (cons x) (phase2 keep t first rest false) else phase2 keep t first rest false)
+      else option_map (cons x) (phase2 keep t first rest flag)
   end.
 
 Definition normalize_options (t : list odesc) (args : list string) : option (list string) :=
   let l := phase1 t args in
-  match l with [] => Some [] | x :: _ => phase2 t x l false end.
+  match l with [] => Some [] | x :: _ => phase2 false t x l false end.
+(* the same passes over the words of a usage pattern *)
+Definition normalize_usage_words (t : list odesc) (ws : list string) : option (list string) :=
+  let l := phase1 t ws in
+  match l with [] => Some [] | x :: _ => phase2 true t x l false end.
 
 Example norm_example :
   normalize_options [ {| od_kind := OSimple; od_short := Some "-f"; od_long := Some "--force" |};
@@ -87,6 +93,15 @@ Example norm_attached_value_with_eq :
   normalize_options [ {| od_kind := OWithParam None; od_short := Some "-o"; od_long := Some "--out" |} ] ["-oa=b"; "x"]
   = Some ["--out=a=b"; "x"].
 Proof. reflexivity. Qed.
+
+(* a value that is a bracket or a bar is a value like any other on the command line (K48, fixed);
+   in a usage pattern the same word after a valued option is kept as syntax *)
+Example norm_bracket_value :
+  let t := [ {| od_kind := OWithParam None; od_short := Some "-o"; od_long := Some "--out" |} ] in
+  normalize_options t ["-o"; "]"; "x"] = Some ["--out=]"; "x"]
+  /\ normalize_options t ["--out=|"] = Some ["--out=|"]
+  /\ normalize_usage_words t ["["; "-o"; "]"; "x"] = Some ["["; "--out=]"; "]"; "x"].
+Proof. repeat split; reflexivity. Qed.
 
 (* K12: a valued option in last position takes the FIRST word as its value *)
 Example norm_dangling_refuted :
